@@ -31,6 +31,8 @@ var gbyMemdb = gbyTable{
 		"(*leveldb/memdb.DB).randHeight": {lkMem},
 		"(*leveldb/memdb.dbIter).fill":   {lkMem + "/R"},
 	},
+	// Put repoints an existing node in place (offset and value length), so node words are guarded data
+	elems: map[string]bool{tMem + ".nodeData": true},
 	exceptions: map[string]string{
 		"leveldb/memdb.New|*": "construction before the value is shared",
 		"(*leveldb/memdb.DB).findGE|leveldb/memdb.DB.prevNode": "written only under the prev flag (C14.5 predecessors-only-when-asked); every prev=true caller holds the write lock (C14.2)",
